@@ -132,6 +132,30 @@ def bounded(check, tier, seed):
     s.done()
 
 
+def control_chars(check, tier):
+    """every C0 / C1 control character (but ESC and the 8-bit CSI, which start sequences) and DEL as TEXT: first, last and only character
+    of a run, after a styled / coloured / unformatted run, and directly after every kind of reset sequence in the grammar"""
+    s = Suite(check, "C05.control_chars", "each of the 63 control characters other than ESC / 0x9b as first, last and only character of a run "
+              "next to bold, coloured and plain runs (round trip), and directly after ESC[m / ESC[0m / ESC[39m / ESC[49m / ESC[22m-style resets "
+              "(grammar): characters and formatting as an ANSI terminal shows them", bound="63 characters x 9 placements")
+    ctl = [chr(c) for c in list(range(0, 32)) + [127] + list(range(128, 160)) if c not in (0x1b, 0x9b)]
+    styles = [{"bold": True}, {"fg": 31}, {"bg": 44, "underline": True}, {}]
+    for c in ctl:
+        for k, at in enumerate(styles):
+            for runs in ([["a", at], [c + "b", {}]], [["a", at], ["b" + c, {"fg": 32}]], [[c, at], ["z", {}]], [["a", {}], [c, at], ["b", at]]):
+                s.case((ord(c), k, str(runs)), sample=dict(runs=runs) if c == "\x0f" and k == 0 else None)
+                d = roundtrip([(t, a) for t, a in runs])
+                if d:
+                    s.fail("C05.roundtrip.control_character", dict(runs=runs), d, replay={"kind": "suite", "module": "props.C05", "case": dict(runs=runs)})
+        for st in ("\x1b[1;31mA\x1b[m" + c + "B", "\x1b[4mA\x1b[0m" + c + "B", "\x1b[31mA\x1b[39m" + c, c + "\x1b[44mB\x1b[49m" + c + "C", "\x1b[m" + c):
+            s.case((ord(c), st))
+            d = grammar_case(st)
+            if d:
+                s.fail("C05.grammar.control_character", dict(seq=[st]), d, replay={"kind": "suite", "module": "props.C05", "case": dict(seq=[st])})
+    s.done()
+
+
 def run(check, tier, seed):
     verify(E.token_type_contract(True), tier, check)
     bounded(check, tier, seed)
+    control_chars(check, tier)
